@@ -44,11 +44,12 @@ def documented_statistics(root):
     allowed, actnorm = set(), []
     for name, mod in root.named_modules():
         pre = name + "." if name else ""
-        if type(mod) is BatchNorm:
-            allowed.update({pre + "running_mean", pre + "running_var"})
-        elif isinstance(mod, (torch.nn.BatchNorm1d, torch.nn.BatchNorm2d)):
-            allowed.update({pre + "running_mean", pre + "running_var", pre + "num_batches_tracked"})
-        elif type(mod) is ActNorm:
+        if isinstance(mod, (BatchNorm, ActNorm, torch.nn.BatchNorm1d, torch.nn.BatchNorm2d)):
+            # the statistics of a normalisation layer are its own *buffers* (running mean/variance, batch counters,
+            # initialisation flag); its trainable parameters are not statistics - except ActNorm's, which its
+            # documented data-dependent initialisation sets once (handled by the caller through `actnorm`)
+            allowed.update(pre + b for b, _ in mod.named_buffers(recurse=False))
+        if isinstance(mod, ActNorm):
             actnorm.append((pre, mod))
     return allowed, actnorm
 
